@@ -125,10 +125,10 @@ Theorem concat_t_scan_is_source_partial : forall (self : table) (others : others
 Proof. exact GenBridgeConcatProofs.concat_t_scan_is_source_partial. Qed.
 Print Assumptions concat_t_scan_is_source_partial.
 
-(* the whole method as translated (second and third loop, the stacking, the constructor call) is concat_t
-   for concatenation on the observation axis, on coherent operands; axis='sample' is not bridged (docs/C10.md) *)
-Theorem gen_concat_is_source_partial : forall (self : table) (others : others_arg),
+(* the whole method as translated (second and third loop, the stacking, the constructor call) is concat_t,
+   on both axes, for coherent operands *)
+Theorem gen_concat_is_source_partial : forall (self : table) (others : others_arg) (a : axis),
   Forall wf (self :: normalise_others others) ->
-  gen_concat self others Obs = concat_t (self :: normalise_others others) Obs.
+  gen_concat self others a = concat_t (self :: normalise_others others) a.
 Proof. exact GenBridgeConcatProofs.gen_concat_is_source_partial. Qed.
 Print Assumptions gen_concat_is_source_partial.
